@@ -339,6 +339,7 @@ const (
 	fkIndex
 	fkNilMap
 	fkDiv0
+	fkLibAssert // a panic raised by rapid itself on misuse: a Custom generator whose function draws nothing
 	fkFatal
 	fkFatalf
 	fkFailNow
@@ -351,10 +352,13 @@ const (
 	nFailKinds
 )
 
-var failKindNames = []string{"panic-string", "panic-error", "panic-struct", "panic-nil", "rt-index", "rt-nilmap", "rt-div0", "Fatal", "Fatalf", "FailNow", "Error", "Errorf", "Fail", "Error-empty", "Errorf-empty", "Fatalf-recovered"}
+var failKindNames = []string{"panic-string", "panic-error", "panic-struct", "panic-nil", "rt-index", "rt-nilmap", "rt-div0", "lib-assert", "Fatal", "Fatalf", "FailNow", "Error", "Errorf", "Fail", "Error-empty", "Errorf-empty", "Fatalf-recovered"}
 
 func kindFatal(k int) bool { return k >= fkFatal && k <= fkFailNow }
-func kindPanic(k int) bool { return k <= fkDiv0 }
+func kindPanic(k int) bool { return k <= fkLibAssert }
+
+// noDrawGen misuses Custom (its function draws nothing): rapid answers with a panic of its own, in every kind of run
+var noDrawGen = rapid.Custom(func(*rapid.T) int { return 0 })
 func kindNonFatal(k int) bool {
 	return k >= fkError
 }
@@ -382,6 +386,8 @@ func expectedMsg(k int, msg string) string {
 		return "assignment to entry in nil map"
 	case fkDiv0:
 		return "runtime error: integer divide by zero"
+	case fkLibAssert:
+		return "group did not use any data from bitstream; this is likely a result of Custom generator not calling any of the built-in generators"
 	case fkFailNow:
 		return "(*T).FailNow() called"
 	case fkFail:
@@ -415,6 +421,8 @@ func raise(x *X, t *rapid.T, k int, site int, msg string) {
 		nilMap["x"] = 1
 	case fkDiv0:
 		_ = 1 / zeroInt
+	case fkLibAssert:
+		noDrawGen.Draw(t, "nodraw")
 	case fkFatal:
 		t.Fatal(msg)
 	case fkFatalf:
